@@ -70,7 +70,7 @@ func genC12(e *emitter, tier string, seed int64) {
 	}
 	// ---- default_time: layouts x zones ----
 	stamps := []string{
-		"06/Jan/2017:16:16:37 +0000", "14 May 2019 19:11:40.164", "14 May 19:11:40.164", "171113 14:14:20", "2021/02/27 - 14:14:20",
+		"06/Jan/2017:16:16:37 +0000", "02/Dec/2021:11:55:34 -0500", "02/Dec/2021:11:55:34 -0330", "2021/02/27 - 4:14:20", "Tue May 8 06:25:05.176170 2021", "14 May 2019 19:11:40.164", "14 May 19:11:40.164", "171113 14:14:20", "2021/02/27 - 14:14:20",
 		"Tue May 18 06:25:05.176170 2021", "2021-05-27 06:54:14.760 UTC", "2021-03-15T00:08:10Z", "2017-12-29T12:33:33.095243Z",
 		"1610358231887", "1610358231", "2014-04-26 17:24:37.3186369", "May 8, 2009 5:57:51 PM", "not a time", "", "12345",
 	}
